@@ -70,6 +70,13 @@ def special_inputs():
     out.append(("AsRef", "struct Ar2 { #[as_ref(str)] #[as_ref([u8], String, std::ffi::OsStr, std::path::Path)] a: String }"))
     out.append(("AsMut", "struct Am2(#[as_mut(str)] #[as_mut(String, [u8], Vec<u8>)] String);".replace(", [u8], Vec<u8>", "")))
     out.append(("From", "enum Fa { #[from(i8, i16)] A(i32), #[from(u8, u16)] B(u32), #[from] C(bool), D(char) }"))
+    # many items of ONE rarely taken code path (a qualified-self field type), next to items whose field types nest a type
+    # parameter: a counter or cache that one path forgets to reset shows only after many such expansions in one process
+    for j in range(20):
+        out.append((["Display", "Debug", "LowerHex"][j % 3], f'#[{["display", "debug", "lower_hex"][j % 3]}("{{_0}}")] struct Qs{j}<T: Iterator>(<T as Iterator>::Item, u8);'))
+    out.append(("Display", '#[display("{_0}")] struct Nb<T>(Box<T>);'))
+    out.append(("Debug", "struct Nd<T>(Vec<T>, Option<T>, &'static T);"))
+    out.append(("Display", '#[display("{a} {b}")] struct Nn<T, U> { a: Option<Box<T>>, b: std::rc::Rc<Vec<U>> }'))
     out.append(("From", "enum Fw<A, B> { P(Box<A>), Q(Box<B>), R(Box<A>, Box<B>) }"))
     out.append(("TryInto", "enum Tw { P(Box<i8>), Q(Box<u8>), R(Box<i8>, Box<u8>) }"))
     out.append(("TryInto", "enum E<T, U> { A(T), B(U), C(T, U), D(U, T), E0(u8), F(u16) }"))
